@@ -9,8 +9,17 @@ for f in conf:
     p = os.path.join(ROOT, f)
     if f == "known_findings.json":
         ours = json.loads(sh("git", "show", ":2:" + f)); theirs = json.loads(sh("git", "show", ":3:" + f))
+        try:
+            base = json.loads(sh("git", "show", ":1:" + f))
+        except Exception:
+            base = {"findings": [], "fixed": []}
+        # three-way: an entry one side REMOVED (present in the base, absent on that side) stays removed
+        bids = {x["id"] for x in base["findings"]}
+        oids = {x["id"] for x in ours["findings"]}; tids = {x["id"] for x in theirs["findings"]}
+        removed = (bids - oids) | (bids - tids)
+        ours["findings"] = [x for x in ours["findings"] if x["id"] not in removed]
         ids = {x["id"] for x in ours["findings"]}
-        ours["findings"] += [x for x in theirs["findings"] if x["id"] not in ids]
+        ours["findings"] += [x for x in theirs["findings"] if x["id"] not in ids and x["id"] not in removed]
         ours["fixed"] += [x for x in theirs.get("fixed", []) if x not in ours["fixed"]]
         json.dump(ours, open(p, "w"), indent=1)
     elif f == "props.py":
